@@ -115,19 +115,19 @@ NO_PROGRESS = {'parse_deref_steps_list'}
 STRICT = {'parse_addition', 'parse_multiplication', 'parse_singular_expression', 'parse_rest_of_bitwise_expression', 'parse_struct_members',
           'parse_rest_of_function_signature', 'parse_function_body', 'parse_primary_expression', 'parse_statement'}
 TABLE = {
-    'parse_declaration': dict(c=0, recent=False, ens=['[C15.parse.parse_declaration.ok_only_at_declaration_start] r is Ok ==> is_decl_start(cur(*old(tokens))),']),
-    'parse_import_declaration': dict(c=0),
-    'parse_constant_declaration': dict(c=0),
-    'parse_word_declaration': dict(c=0, req=['declaring_token is Word8 || declaring_token is Word16 || declaring_token is Word32 || declaring_token is Word64 || declaring_token is Word128,']),
-    'parse_struct_declaration': dict(c=0),
+    'parse_declaration': dict(c=0, recent=False, zone='toggles', ens=['[C15.parse.parse_declaration.ok_only_at_declaration_start] r is Ok ==> is_decl_start(cur(*old(tokens))),']),
+    'parse_import_declaration': dict(c=0, req=['[C17.parse.zone_matches_visibility] (old(buffer).active_private_zone is None) == (flags.bits & 1 != 0),']),
+    'parse_constant_declaration': dict(c=0, req=['[C17.parse.zone_matches_visibility] (old(buffer).active_private_zone is None) == (flags.bits & 1 != 0),']),
+    'parse_word_declaration': dict(c=0, req=['[C17.parse.zone_matches_visibility] (old(buffer).active_private_zone is None) == (flags.bits & 1 != 0),', 'declaring_token is Word8 || declaring_token is Word16 || declaring_token is Word32 || declaring_token is Word64 || declaring_token is Word128,']),
+    'parse_struct_declaration': dict(c=0, req=['[C17.parse.zone_matches_visibility] (old(buffer).active_private_zone is None) == (flags.bits & 1 != 0),']),
     'parse_struct_members': dict(c=1 - K, recent=False, loops={0: dict(c=-K, lists=['list'])}),
-    'parse_function_declaration': dict(c=0, recent=False),
+    'parse_function_declaration': dict(c=0, recent=False, zone='toggles', req=['[C17.parse.zone_matches_visibility] (old(buffer).active_private_zone is None) == (flags.bits & 1 != 0),'], ens=['[C17.parse.function_declaration_restores_zone_state] r is Ok ==> (final(buffer).active_private_zone is None) == (flags.bits & 1 != 0),']),
     'parse_rest_of_function_signature': dict(c=2 - K, recent='pair1', loops={0: dict(c=-K, lists=['list'])}),
     'parse_member': dict(c=0),
     'parse_parameter': dict(c=0),
     'parse_type': dict(c=0),
     'parse_inner_type': dict(c=0, ens=['[C15.parse.parse_inner_type.one_node_per_token] final(buffer).num_nodes - old(buffer).num_nodes <= pos(*final(tokens)) - pos(*old(tokens)),']),
-    'parse_function_body': dict(c=1 - K, recent='optpair', loops={0: dict(c=-K, lists=['list'])}),
+    'parse_function_body': dict(c=1 - K, recent='optpair', req=['[C17.parse.function_body_is_parsed_inside_a_private_zone] old(buffer).active_private_zone is Some,'], loops={0: dict(c=-K, lists=['list'])}),
     'parse_rest_of_block': dict(c=0, recent=False, loops={0: dict(c=0, lists=['list'])}),
     'parse_statement': dict(c=-1, loops={0: dict(c=0, extra=['1 <= depth <= 127,'])}, inserts=[
         ('before', 0, 'let r9_result = parse_comparison(&mut r9_tokens, buffer);',
@@ -191,11 +191,15 @@ def gen_parse_contracts(u):
             out.append('\t[C15.parse.%s.returns_existing_node] r is Ok ==> u24v(r->Ok_0.0) < final(buffer).num_nodes,' % n)
         for e in d.get('ens', []):
             out.append('\t' + e)
+        if d.get('zone', 'same') == 'same':
+            out.append('\t[C17.parse.%s.private_zone_state_untouched] final(buffer).active_private_zone == old(buffer).active_private_zone,' % n)
         out.append('\tdecls_same(*old(buffer), *final(buffer)),')
         out.append('\t' + PROPH_FN)
         out.append('decreases rem(*old(tokens)), %dint' % rank)
         out.append('--- body_prefix')
         out.append('\tlet ghost t0 = *tokens; let ghost b0 = *buffer;')
+        if n in ('parse_declaration', 'parse_function_declaration'):
+            out.append('\tproof { assert(forall|x: u8| (x | 2u8) & 1u8 == x & 1u8) by (bit_vector); assert((0u8 | 1u8) & 1u8 == 1u8) by (bit_vector); assert(0u8 & 1u8 == 0u8) by (bit_vector); }')
         head, ret, where, body = __import__('vlib.rsparse', fromlist=['x']).fn_signature_split(it.text)
         loops = __import__('vlib.rsparse', fromlist=['x']).find_loops(body)
         for k, (kw, hdr, bo) in enumerate(loops):
@@ -209,6 +213,8 @@ def gen_parse_contracts(u):
             inv += ld.get('extra', [])
             if n in STRICT:
                 inv.append('pos(*tokens) > pos(t0),')
+            if d.get('zone', 'same') == 'same':
+                inv.append('buffer.active_private_zone == b0.active_private_zone,')
             inv.append('decls_same(b0, *buffer),')
             inv.append(PROPH_LOOP)
             if 'brk' in ld:
